@@ -131,14 +131,21 @@ impl<T: Ord + Clone> Collection<T> {
     /// Returns an enum describing if the collection is empty.
     #[must_use]
     pub fn is_empty(&self) -> EmptyState {
-        if self.known.is_empty() {
-            if self.unknown_kind().contains_any_defined() {
-                EmptyState::Maybe
-            } else {
-                EmptyState::Always
-            }
+        // Only a known element that cannot be "undefined" proves the collection is not empty.
+        if self
+            .known
+            .values()
+            .any(|kind| !kind.contains_undefined())
+        {
+            return EmptyState::Never;
+        }
+
+        if self.known.values().any(Kind::contains_any_defined)
+            || self.unknown_kind().contains_any_defined()
+        {
+            EmptyState::Maybe
         } else {
-            EmptyState::Never
+            EmptyState::Always
         }
     }
 
